@@ -73,6 +73,9 @@ type l2Case struct {
 	Note    []string
 	// Clean: the arguments before any perturbation (what a correct caller would pass)
 	Clean []any
+	// PreSamples: the sample list before any perturbation; when set, the text is prepared with
+	// it first (a correct caller's Prepare), then with the perturbed list
+	PreSamples []any
 }
 
 // l2Directed: bulk sources of different lengths where the odd one contributes no column at
@@ -221,8 +224,17 @@ func genL2(r *rng.R, g *qgen.G, seeds []string) (*l2Case, bool) {
 			c.Samples = append(c.Samples, reflect.Zero(e.Type).Interface())
 		}
 	}
+	cleanSamples := append([]any{}, c.Samples...)
 	if r.Chance(1, 6) {
-		switch r.Intn(9) {
+		switch r.Intn(10) {
+		case 9:
+			// one sample given twice instead of another: same length, same set of names minus one
+			if len(c.Samples) > 1 {
+				i := r.Intn(len(c.Samples))
+				j := (i + 1 + r.Intn(len(c.Samples)-1)) % len(c.Samples)
+				c.Samples[i] = c.Samples[j]
+				c.Note = append(c.Note, "sample-replaced-by-duplicate")
+			}
 		case 0:
 			if len(c.Samples) > 0 {
 				i := r.Intn(len(c.Samples))
@@ -272,6 +284,9 @@ func genL2(r *rng.R, g *qgen.G, seeds []string) (*l2Case, bool) {
 				}
 			}
 		}
+	}
+	if len(c.Note) > 0 && r.Chance(1, 2) {
+		c.PreSamples = cleanSamples
 	}
 	if r.Chance(1, 3) {
 		for i := range c.Samples {
@@ -671,6 +686,9 @@ func runL2Case(c *l2Case, samples, args []any) (res *l2Run) {
 	}()
 	env := newL2Env()
 	defer env.db.PlainDB().Close()
+	if c.PreSamples != nil {
+		sqlair.Prepare(c.Q, c.PreSamples...) // (its outcome is another case's subject)
+	}
 	stmt, err := sqlair.Prepare(c.Q, samples...)
 	if err != nil {
 		res.prepErr = err.Error()
